@@ -64,6 +64,7 @@ def lenOK (cfg : Cfg) (n : Nat) : Bool := !(n > cfg.maxArrayBytes ∧ cfg.maxArr
 def wholeArrayOK (cfg : Cfg) (t : ArrT) (count : Nat) (data : Bytes) : Bool :=
   match t with
   | .string | .rid | .customText => lenOK cfg data.length && Utf8.valid data
+  | .remoteRef => data.length == count && lenOK cfg data.length && Utf8.valid data
   | .mediaData => false
   | _ => data.length == elemsToBytes t.elemBits count % 2 ^ 64 && lenOK cfg data.length
 
@@ -72,7 +73,7 @@ def wholeArrayOK (cfg : Cfg) (t : ArrT) (count : Nat) (data : Bytes) : Bool :=
 def completeCharsValid (acc : Bytes) : Bool := Utf8.viable acc
 
 def isTextArr : ArrT → Bool
-  | .string | .rid | .customText => true | _ => false
+  | .string | .rid | .remoteRef | .customText => true | _ => false
 
 /-- chunked array body after the begin event: chunk headers and data events.
     Returns the concatenated contents.  `total` = declared bytes so far. -/
@@ -358,7 +359,63 @@ def globalOK (st : St) : Bool :=
   && st.refs.all (fun id => (st.marks.find? (·.1 == id)).isSome)
   && st.keyRefs.all (fun id => match st.marks.find? (·.1 == id) with | some (_, mc) => mc.keyable | none => false)
 
-def check (c : Ctx) (evs : List Ev) : Verdict :=
+/-- a comment the text format cannot spell: invalid UTF-8; a line break in a single line comment;
+    in a multiline comment an unmatched `*/`, an unclosed `/*`, or a final `/` that is not the end
+    of a nested comment (it would merge with the closing delimiter) -/
+def commentBad (multi : Bool) (s : Bytes) : Bool :=
+  if !Utf8.valid s then true
+  else if !multi then s.any fun b => b.toNat == 10 || b.toNat == 13
+  else
+    -- depth of nesting, scanning delimiters left to right without overlap
+    let rec go : Nat → List Nat → Nat → Bool → Bool × Nat × Bool
+      | 0, _, d, e => (false, d, e)
+      | _ + 1, [], d, e => (false, d, e)
+      | f + 1, 47 :: 42 :: r, d, _ => go f r (d + 1) false
+      | f + 1, 42 :: 47 :: r, d, _ => if d = 0 then (true, d, false) else go f r (d - 1) r.isEmpty
+      | f + 1, _ :: r, d, _ => go f r d false
+    let (neg, depth, endsNested) := go (s.length + 1) (s.map (·.toNat)) 0 false
+    neg || depth != 0 || (s.getLast?.map (·.toNat) == some 47 && !endsNested)
+
+/-- media type grammar of the text format: MEDIA_TYPE := FIRST NEXT* '/' NEXT+ with FIRST a letter
+    and NEXT a letter, digit or one of ! # $ % & ' * + . ^ _ ` | ~ { } - -/
+def mediaNext (c : Char) : Bool := c.isAlphanum || "!#$%&'*+.^_`|~{}-".toList.contains c
+
+def mediaTypeBad (mt : Bytes) : Bool :=
+  if mt.any (fun b => b.toNat ≥ 128) then true else
+  let cs := mt.map (fun b => Char.ofNat b.toNat)
+  match cs.span (· ≠ '/') with
+  | (ty, '/' :: sub) =>
+    !(match ty with | f :: rest => f.isAlpha && rest.all mediaNext | [] => false) || sub.isEmpty || !sub.all mediaNext
+  | _ => true
+
+/-- TZ_AREALOC := '/' [A-Z] ([a-zA-Z0-9_-] | '.' | '/' | '+')*, at most 127 bytes -/
+def areaBad (name : Bytes) : Bool :=
+  name.isEmpty || name.length > 127 || name.any (fun b => b.toNat ≥ 128) ||
+  (match name.map (fun b => Char.ofNat b.toNat) with
+   | f :: rest => !(f.isUpper) || !(rest.all fun c => c.isAlphanum || "_-./+".toList.contains c)
+   | [] => true)
+
+def dateBad (t : TimeV) : Bool :=
+  t.year == 0 || t.month < 1 || t.month > 12 || t.day < 1 ||
+    t.day > [31, 29, 31, 30, 31, 30, 31, 31, 30, 31, 30, 31].getD (t.month - 1) 0
+
+def zoneBad : Zone → Bool
+  | .area name => areaBad name
+  | .latlong lat long => lat < -9000 || lat > 9000 || long < -18000 || long > 18000
+  | .offset m => m < -1439 || m > 1439
+  | _ => false
+
+def clockBad (t : TimeV) : Bool :=
+  t.hour > 23 || t.minute > 59 || t.second > 60 || t.nanos > 999999999 || zoneBad t.zone
+
+/-- a calendar / clock value the text format cannot spell, or whose fields are out of range -/
+def timeBad (t : TimeV) : Bool :=
+  match t.kind with
+  | 0 => dateBad t
+  | 1 => clockBad t
+  | _ => dateBad t || clockBad t
+
+def checkStructure (c : Ctx) (evs : List Ev) : Verdict :=
   let fuel := evs.length + 2
   match evs with
   | .beginDoc :: .version 0 :: rest =>
@@ -380,5 +437,23 @@ def check (c : Ctx) (evs : List Ev) : Verdict :=
   | [] => { structural := some none, globalOK := true }
   | .beginDoc :: _ :: _ => { structural := some (some 1), globalOK := true }
   | _ :: _ => { structural := some (some 0), globalOK := true }
+
+/-- the grammar's verdict, with comment contents: a bad comment is an invalid event where it stands -/
+def check (c : Ctx) (evs : List Ev) : Verdict :=
+  let v := checkStructure c evs
+  -- events whose content the text format cannot spell: comments (above), media types that are not
+  -- `type/subtype` in media-type characters, times with a field out of range or an area/location
+  -- name outside [A-Z][A-Za-z0-9_./+-]*
+  let firstBad := (evs.zipIdx.find? fun p => match p.1 with
+    | .comment m s => commentBad m s
+    | .media mt _ | .mediaBegin mt => mediaTypeBad mt
+    | .time t => timeBad t
+    | _ => false).map (·.2)
+  match firstBad with
+  | none => v
+  | some i =>
+    match v.structural with
+    | some (some j) => if j ≤ i then v else { structural := some (some i), globalOK := true, content := true }
+    | _ => { structural := some (some i), globalOK := true, content := true }
 
 end CE.Spec
